@@ -353,6 +353,7 @@ func EVAL(ctx context.Context, ast MalType, env EnvType) (res MalType, e error) 
 	}
 
 	for {
+		verifLoopTop(ctx, ast, env)
 		if ctx != nil {
 			select {
 			case <-ctx.Done():
